@@ -45,12 +45,18 @@ def fast_2d_point_in_simplex(point, simplex, eps=1e-8):
     (p0x, p0y), (p1x, p1y), (p2x, p2y) = simplex
     px, py = point
 
-    area = 0.5 * (-p1y * p2x + p0y * (p2x - p1x) + p1x * p2y + p0x * (p1y - p2y))
+    # Work relative to the first vertex: products of absolute coordinates
+    # cancel badly for a simplex that is far from the origin.
+    p1x, p1y = p1x - p0x, p1y - p0y
+    p2x, p2y = p2x - p0x, p2y - p0y
+    px, py = px - p0x, py - p0y
 
-    s = 1 / (2 * area) * (+p0y * p2x + (p2y - p0y) * px - p0x * p2y + (p0x - p2x) * py)
+    area = 0.5 * (p1x * p2y - p1y * p2x)
+
+    s = 1 / (2 * area) * (p2y * px - p2x * py)
     if s < -eps or s > 1 + eps:
         return False
-    t = 1 / (2 * area) * (+p0x * p1y + (p0y - p1y) * px - p0y * p1x + (p1x - p0x) * py)
+    t = 1 / (2 * area) * (p1x * py - p1y * px)
 
     return (t >= -eps) and (s + t <= 1 + eps)
 
